@@ -195,6 +195,9 @@ pub enum OpK {
     TryRecvAll,
     StreamAll,
     TryIter,
+    /// try_iter() under E1: the closing None is logged as Empty (it says
+    /// "nothing right now", not "end of stream")
+    TryIterE,
     TryIterWith,
     IterAll,
     IterWithAll,
@@ -461,7 +464,7 @@ impl Ctx {
                     _ => return true,
                 }
             },
-            TryIter | TryIterWith | IterAll | IterWithAll => self.iter_like(th, o),
+            TryIter | TryIterE | TryIterWith | IterAll | IterWithAll => self.iter_like(th, o),
             AddStream | AddStreamWith => self.add_stream(th, o),
             IntoSingle | IntoMulti | Transform => self.convert(th, o),
             IterNext => unreachable!(),
@@ -677,7 +680,8 @@ impl Ctx {
                             self.log(th, o, OpK::IterNext, 0, start, Res::Val(id));
                         }
                         Call::Done(None) => {
-                            self.log(th, o, OpK::IterNext, 0, start, Res::End);
+                            let r = if o.k == OpK::TryIterE { Res::Empty } else { Res::End };
+                            self.log(th, o, OpK::IterNext, 0, start, r);
                             break true;
                         }
                         Call::Panicked(m) => {
@@ -695,6 +699,8 @@ impl Ctx {
             match (o.k, h) {
                 (OpK::TryIter, H::BR(r)) => drive!(r.try_iter(), pv),
                 (OpK::TryIter, H::MR(r)) => drive!(r.try_iter(), pv),
+                (OpK::TryIterE, H::BR(r)) => drive!(r.try_iter(), pv),
+                (OpK::TryIterE, H::MR(r)) => drive!(r.try_iter(), pv),
                 (OpK::TryIter, H::BU(r)) => drive!(r.into_iter(), pv),
                 (OpK::TryIter, H::MU(r)) => drive!(r.into_iter(), pv),
                 (OpK::TryIterWith, H::BU(r)) => drive!(r.try_iter_with(view_fn), iv),
